@@ -1096,7 +1096,7 @@ class Explorer:
                 bounded_opt = c.opts.get('bounded')
                 if bounded_opt:
                     st, secs, backend, smt2 = self.discharge(ob.pc, ob.goal)
-                    if st not in ('unsat', 'bounded-unsat') and c.opts.get('dialect'):
+                    if st not in ('unsat', 'bounded-unsat') and (c.opts.get('dialect') or c.opts.get('bounded_refute')):   # bounded_refute (C13y): shape stand-ins want their counterexamples replayed too
                         # bounded FPy stand-in: the model of the failed query is a counterexample
                         cex, rstatus = self.refute(P, c, ob, [bounded_opt], c.opts.get('bounded_ms', 60000))
                 else:
